@@ -217,6 +217,10 @@ def check(P, R):
     check_add(P, R, f)
     check_decode_order(P, R, f, unq)
     check_callers(P, R)
+    from . import c13 as _c13
+    _c13.check_rewind(P, R, 'C18.d', 'the urlencoded text that is parsed is the whole body, whatever was read from request.body before')
+    from . import c04
+    c04.check_reader_premise(P, R, 'C18.d', 'the urlencoded text that is parsed is the whole body: a reader that stops early on a short read drops the trailing pairs')
 
 
 def check_callers(P, R):
